@@ -344,6 +344,27 @@ func runC16(r *Run) {
 			if !loopOK {
 				problems = append(problems, "no loop applying each element between read and clear")
 			}
+			// nothing but the epoch-end gate can leave EndBlock before the list is applied: an earlier bail-out
+			// (e.g. on a vote-power error) would leave the pending list to be overwritten at the next epoch end
+			ast.Inspect(eb.Decl.Body, func(n ast.Node) bool {
+				if _, isLit := n.(*ast.FuncLit); isLit {
+					return false
+				}
+				rs, ok := n.(*ast.ReturnStmt)
+				if !ok || rs.Pos() > c.Pos() {
+					return true
+				}
+				gate := false
+				for _, f := range eb.FactsAt(rs, false) {
+					if o := eb.outcome(f); o != nil && o.Callee.Name() == "IsEpochEnd" && !o.Success {
+						gate = true
+					}
+				}
+				if !gate {
+					problems = append(problems, "EndBlock can return at "+eb.pos(rs)+" before the list is applied and cleared")
+				}
+				return true
+			})
 			r.check(len(problems) == 0, "C16.R3", key, eb.pos(g), "pending "+q.name+": read -> apply each -> clear", strings.Join(problems, "; "))
 		}
 		// marker cleared
